@@ -3,7 +3,7 @@
 From Coq Require Import List ZArith NArith Bool.
 From Coq.Strings Require Import Byte.
 Import ListNotations.
-From SV Require Import Text C01_Lines G_codes G_c01_io C01_Model C01_Detect C01_Lemmas C01_Formats C01_Dec C01_Stockholm C01_Domain C01_Gff C01_Main C01_IdPattern C01_Reader C01_Sniff C01_Layout.
+From SV Require Import Text C01_Lines G_codes G_c01_io C01_Model C01_Detect C01_Lemmas C01_Formats C01_Dec C01_Stockholm C01_Domain C01_Gff C01_Main C01_IdPattern C01_Reader C01_Sniff C01_Layout C01_Json.
 
 (* the FASTA id matcher of the model was written for exactly the pattern text found in /repo *)
 Theorem C01_idpattern_pinned : FASTA_IDPATTERN_CANON = IDPATTERN_PINNED.
@@ -237,6 +237,28 @@ Theorem C01_jdump_no_tab : forall t, no_byte TAB (jdump t) = true.
 Proof. exact jdump_no_tab. Qed.
 Print Assumptions C01_jdump_no_tab.
 
+(* ---- SJSON at byte level: json.load (a parser for the subset of JSON sugar writes) inverts json.dump on EVERY tree ---- *)
+Theorem C01_jparse_jdump : forall t fuel rest, tsize t <= fuel -> jparse_val fuel (jdump t ++ rest) = Some (t, rest).
+Proof. exact jparse_jdump. Qed.
+Print Assumptions C01_jparse_jdump.
+
+Theorem C01_jload_jdump : forall t w, forallb jws w = true -> jload (jdump t ++ w) = Some t.
+Proof. exact jload_jdump_ws. Qed.
+Print Assumptions C01_jload_jdump.
+
+(* reading the characters of a written file is reading its content, for every format (for SJSON: parse the bytes) ... *)
+Theorem C01_read_bytes_written : forall f b c, write_w f b = Ok c -> read_bytes f (content_text c) = read_content f c.
+Proof. exact read_bytes_written. Qed.
+Print Assumptions C01_read_bytes_written.
+
+(* ... so THE PROPERTY holds on bytes for all four formats: write -> read returns the normalised basket, and so does the next cycle *)
+Theorem C01_bytes_roundtrip : forall f b, wfb_basket f b = true ->
+  exists c c2, write_w f b = Ok c /\ read_bytes f (content_text c) = Ok (map (norm_of f) b)
+               /\ write_w f (map (norm_of f) b) = Ok c2 /\ read_bytes f (content_text c2) = Ok (map (norm_of f) b)
+               /\ (f <> Sjson -> content_text c2 = content_text c).
+Proof. exact bytes_roundtrip. Qed.
+Print Assumptions C01_bytes_roundtrip.
+
 (* ---- write(basket, name): os.path.splitext on POSIX names and the extension table of /repo ---- *)
 (* directories do not matter *)
 Theorem C01_basename_dir : forall d b, no_byte SLASH b = true -> basename (d ++ SLASH :: b) = b /\ basename b = b.
@@ -349,3 +371,10 @@ Example C01_witness_layout :
   /\ stk_noop (bs "s1 ACGU"%bs) = false
   /\ rows_all [bs "AC"%bs; bs "GU"%bs] [([[]], [bs "A"%bs; bs "-"%bs]); ([], [bs "N"%bs; bs "N"%bs])] = [bs "ACAN"%bs; bs "GU-N"%bs].
 Proof. exact (conj eq_refl (conj eq_refl (conj eq_refl (conj eq_refl (conj eq_refl eq_refl))))). Qed.
+
+Example C01_witness_json :
+  jload (bs " {""a"" :[null , ""x\u0041\n""],"%bs ++ [x0a] ++ bs " ""b"": {} } "%bs)
+  = Some (TDict [(bs "a"%bs, TList [TNull; TStr (bs "xA"%bs ++ [x0a])]); (bs "b"%bs, TDict [])])
+  /\ jload (bs "{""a"": 1}"%bs) = None
+  /\ Bstr (jstr ([x09] ++ bs "a""\"%bs ++ [x7f])) = """\ta\""\\\u007f"""%bs.
+Proof. exact (conj eq_refl (conj eq_refl eq_refl)). Qed.
